@@ -284,6 +284,24 @@ def run_topology(idx, spec):
 
         def one(job):
             proto, method = job
+            rep = spec.get("repeat", 1)
+            if rep > 1 and not RACE:
+                # a rate, not a single run: defects that depend on how fast this path answers (a reply that is back
+                # before its probe was recorded) show in a tenth to most of the invocations, packet loss in none or one
+                mism, last, good = 0, None, None
+                for _ in range(rep):
+                    r = t.trace(proto, method, max_ttl, spec["queries"], spec["e2e"], spec["timeout_ms"])
+                    b = check_result(t, proto, method, max_ttl, spec["queries"], spec["e2e"], r)
+                    if b:
+                        mism, last = mism + 1, (r, b)
+                    else:
+                        good = r
+                if mism >= max(3, (3 * rep + 9) // 10):
+                    res, bad = last[0], last[1] + ["(the result disagreed with the topology in %d of %d invocations)" % (mism, rep)]
+                else:
+                    res, bad = (good or last[0]), []
+                return {"proto": proto, "method": method, "max_ttl": max_ttl, "rc": res["rc"], "wall": round(res["wall"], 2), "violations": bad, "attempts": rep, "disagreeing_invocations": mism,
+                        "hops": [[h.get("ip_address") for h in r["hops"]] for r in (res["doc"] or {}).get("traceroute", {}).get("runs", [])] if res["doc"] else None, "cmd": res["cmd"]}
             res = t.trace(proto, method, max_ttl, spec["queries"], spec["e2e"], spec["timeout_ms"])
             bad = check_result(t, proto, method, max_ttl, spec["queries"], spec["e2e"], res)
             attempts = 1
@@ -317,15 +335,30 @@ def run_topology(idx, spec):
                 if seen >= 2:
                     bad = ["in %d of %d attempts the tool reported that the target does not do SACK (no SACK-permitted in the handshake, or acknowledgements without SACK blocks), but the target's kernel has SACK enabled and the port is open (a handshake taken from another connection's SYN-ACK, or probes outside the connection's window, look like that)" % (seen, total)]
                     cli_failed = True
-            while bad and attempts < 3 and not cli_failed:
-                attempts += 1
-                time.sleep(0.2)
-                res2 = t.trace(proto, method, max_ttl, spec["queries"], spec["e2e"], max(spec["timeout_ms"], 500))
-                bad2 = check_result(t, proto, method, max_ttl, spec["queries"], spec["e2e"], res2)
-                if not bad2:
-                    res, bad = res2, []
+            # A defect may also be a matter of timing on this path (a reply that is back before the tool has recorded
+            # its probe: wrong in a third to a half of the runs). So a mismatch that does not repeat three times in a row
+            # is followed by more attempts, up to 8 in all, and reported when at least half of them disagree with the
+            # topology; a lost packet or a hiccup of the machine does not come back at that rate.
+            if bad and not cli_failed:
+                mism, last_bad, last_res = 1, bad, res
+                while attempts < 8:
+                    attempts += 1
+                    time.sleep(0.2)
+                    res2 = t.trace(proto, method, max_ttl, spec["queries"], spec["e2e"], max(spec["timeout_ms"], 500))
+                    bad2 = check_result(t, proto, method, max_ttl, spec["queries"], spec["e2e"], res2)
+                    if bad2:
+                        mism += 1
+                        last_bad, last_res = bad2, res2
+                    else:
+                        res = res2
+                    if attempts == 3 and mism in (1, 3):
+                        break  # it never came back / it came back every time
+                    if mism >= 4 or mism + (8 - attempts) < 4:
+                        break
+                if mism == attempts or mism >= 4:
+                    res, bad = last_res, last_bad + ["(the result disagreed with the topology in %d of %d attempts)" % (mism, attempts)]
                 else:
-                    res, bad = res2, bad2
+                    bad = []
             return {"proto": proto, "method": method, "max_ttl": max_ttl, "rc": res["rc"], "wall": round(res["wall"], 2), "violations": bad, "attempts": attempts,
                     "hops": [[h.get("ip_address") for h in r["hops"]] for r in (res["doc"] or {}).get("traceroute", {}).get("runs", [])] if res["doc"] else None, "cmd": res["cmd"]}
         if spec.get("concurrent_cli"):
@@ -389,7 +422,7 @@ def main():
         specs = [ff["scenario"]]
     else:
         rng = random.Random(SEED * 7919 + 13)
-        n = 8 if TIER == "quick" else 60
+        n = 10 if TIER == "quick" else 60
         n = int(os.environ.get("VERIF_C13_TOPOLOGIES", n))
         specs = [gen_spec(rng, i) for i in range(n)]
         # always include the fixed regression shapes
@@ -410,6 +443,13 @@ def main():
             # (no SACK-permitted) is captured by every SACK run that is in its handshake at that moment
             specs[5] = {"routers": 2, "port": 443, "port_open": True, "tcp_sack_off": False, "silent": [], "max_ttl_delta": 1, "queries": 3, "e2e": 3,
                         "protos": ["tcp:sack", "tcp:sack", "tcp:prefer_sack"], "timeout_ms": 500, "concurrent_cli": False}
+        if len(specs) > 6:
+            # the parallel drivers on a short, fast path, many times: the kernel answers within microseconds here
+            specs[6] = {"routers": 2, "port": 443, "port_open": True, "tcp_sack_off": False, "silent": [], "max_ttl_delta": 1, "queries": 3, "e2e": 0,
+                        "protos": ["udp6", "udp", "icmp6", "icmp"], "timeout_ms": 200, "concurrent_cli": False, "repeat": 8 if TIER == "quick" else 20}
+        if len(specs) > 7:
+            specs[7] = {"routers": 1, "port": 443, "port_open": True, "tcp_sack_off": False, "silent": [], "max_ttl_delta": 1, "queries": 3, "e2e": 0,
+                        "protos": ["udp", "udp6", "icmp", "icmp6"], "timeout_ms": 200, "concurrent_cli": False, "repeat": 8 if TIER == "quick" else 20}
         if len(specs) > 2:
             specs[2] = {"routers": 4, "port": 80, "port_open": False, "tcp_sack_off": False, "silent": [1, 3], "max_ttl_delta": -1, "queries": 3, "e2e": 1,
                         "protos": ["tcp:syn", "tcp:prefer_sack", "icmp", "udp"], "timeout_ms": 300, "concurrent_cli": False}
@@ -446,7 +486,7 @@ def main():
     stats = {"prop": PROP, "name": "C13KernelRace" if RACE else "C13Kernel", "evaluations": evals, "distinct_nontrivial": distinct, "hashes": [], "extra_distinct": distinct,
              "labels": {}, "samples": [{"spec": r["spec"], "results": [{k: rr[k] for k in ("proto", "method", "max_ttl", "rc", "hops")} for rr in r["results"]]} for r in results[:3]],
              "rule": "generated topologies (seeded): chains of 1..6 network-namespace routers joined by veth pairs with the kernel's own forwarding/ICMP/TCP, destination with open / closed / SACK-disabled port, a subset of routers with their own ICMP suppressed, max-ttl below/at/above the path length, 1..3 runs and 0..3 e2e probes per invocation, several CLI processes at once; each (topology, protocol/method) CLI invocation of the binary built from the working tree is one evaluation; oracle = the topology itself (router chain then destination, silent routers as empty hops, RTT >= 0, e2e answered iff the destination is within max-ttl, sack fails / prefer_sack falls back when the target cannot do SACK); non-trivial = >= 2 routers and (a silent router, or a closed / SACK-disabled port, or > 1 concurrent run); distinct by (topology spec, protocol)",
-             "assumptions": ["real kernel and real time in the loop (timeouts 300-500 ms); IPv4 for every method, IPv6 for icmp and udp; first TTL is fixed at 1 by the CLI", "a mismatch counts only if it repeats in 3 of 3 attempts on the same topology (transient packet loss/latency on a shared machine is not a property violation); retried invocations are counted under label_counts"], "exhaustive": False, "excluded_known": 0, "known_findings_seen": [], "violations": len(failing)}
+             "assumptions": ["real kernel and real time in the loop (timeouts 300-500 ms); IPv4 for every method, IPv6 for icmp and udp; first TTL is fixed at 1 by the CLI", "a mismatch counts only if it repeats in 3 of 3 attempts on the same topology, or in at least 4 of 8 attempts, or (two short-path topologies whose invocations are repeated 8 / 20 times) in at least 30 % of the invocations (transient packet loss/latency on a shared machine is not a property violation); retried invocations are counted under label_counts"], "exhaustive": False, "excluded_known": 0, "known_findings_seen": [], "violations": len(failing)}
     for r in results:
         for rr in r["results"]:
             k = "proto:%s/%s" % (rr["proto"], rr["method"])
